@@ -46,7 +46,7 @@ type WorldSpec struct {
 var nameVocab = []string{"web", "web-1", "web-10", "api", "api.v2", "db", "db2", "cache", "worker", "a", "ab", "abc", "b", "proxy_1", "Z9"}
 var imageVocab = []string{"nginx:1", "nginx:1.25", "redis", "postgres:16", "busybox", "ghcr.io/acme/app:v2"}
 var stateVocab = []string{"running", "exited", "paused", "created"}
-var labelKeyVocab = []string{"container.name", "container-state", "container_image", "msg", "com.docker.compose.service", "com.docker.compose.project", "app/tier", "zone-1", "tier", "weight", "1st", "maintainer", "org.opencontainers.image.title"}
+var labelKeyVocab = []string{"azAZ09_", "Zone.Z-z", "container.name", "container-state", "container_image", "msg", "com.docker.compose.service", "com.docker.compose.project", "app/tier", "zone-1", "tier", "weight", "1st", "maintainer", "org.opencontainers.image.title"}
 var labelValVocab = []string{"web", "db", "a", "ab", "b", "", "x y", "1", "2", "12", "tier", "front-end",
 	"line1\nline2", "q\"uote", "back\\slash", "ünï", "(x)", "a.b", "web", "cr\rinside", "crlf\r\n"}
 
